@@ -98,6 +98,14 @@ def jobs(tier):
                         "families": fam, "family": "work-select"})
             out.append({"program": prog(H, [t, worker("w1", productivity=p1), worker("w2", productivity=p2), req("a", "w1"), req("a", "w2", dynamic=True)]),
                         "families": fam, "family": "work-dynamic"})
+    # optional tasks with a work amount: scheduled ones must still reach it
+    for p1 in (1, 2):
+        for wa in (2, 4):
+            for t in (var("a", work_amount=wa, optional=True), var("a", work_amount=wa, optional=True, max_duration=3)):
+                out.append({"program": prog(H, [t, worker("w1", productivity=p1), req("a", "w1")]), "families": fam, "family": "work-optional"})
+                out.append({"program": prog(H, [t, fixed("b", 1), worker("w1", productivity=p1), worker("w2", productivity=2),
+                                                select("s", ["w1", "w2"], 1, "exact"), req("a", "s"), req("b", "w1")]),
+                            "families": fam, "family": "work-optional"})
     for wa in (2, 3):
         out.append({"program": prog(H, [fixed("a", 2, work_amount=wa), worker("w1", productivity=1), req("a", "w1")]), "families": fam, "family": "work"})
         out.append({"program": prog(H, [fixed("a", 2, work_amount=wa, optional=True), fixed("b", 1), worker("w1", productivity=2), req("a", "w1"), req("b", "w1")]),
@@ -106,4 +114,9 @@ def jobs(tier):
 
 
 def main(tier):
-    return common.run_space_check("C02", tier, jobs(tier), RULE, ASSUME, budget_s=110 if tier == "quick" else 1500)
+    js = jobs(tier)
+    for j in js:
+        # the busy bounds of every assignment are explored too: the interval each worker is held
+        # must be the one the requirement implies (static, delayed, selected) or lie inside the task (dynamic)
+        j["prim_opts"] = {"busy_prims": True}
+    return common.run_space_check("C02", tier, js, RULE, ASSUME, budget_s=110 if tier == "quick" else 1500)
